@@ -511,6 +511,17 @@ func (c *Ctx) c16octreeCase() {
 		if target.Distance(o) < 1e-9 {
 			target = o.Add(vector3.New(1., 2., 3.))
 		}
+		if c.Rng.Intn(5) == 0 { // axis-parallel, exactly through an element vertex / box corner
+			tv := s.verts[c.Rng.Intn(len(s.verts))]
+			switch c.Rng.Intn(3) {
+			case 0:
+				o, target = vector3.New(tv.X()-7, tv.Y(), tv.Z()), tv
+			case 1:
+				o, target = vector3.New(tv.X(), tv.Y()+7, tv.Z()), tv
+			default:
+				o, target = vector3.New(tv.X(), tv.Y(), tv.Z()-7), tv
+			}
+		}
 		ray := geometry.NewRay(o, target.Sub(o))
 		dir := ray.Direction()
 		if dir.X() == 0 || dir.Y() == 0 || dir.Z() == 0 {
@@ -570,6 +581,49 @@ func (c *Ctx) c16slabCase() {
 	ray := geometry.NewRay(o, target.Sub(o))
 	mn, mx := c.Rng.Float64()*2-1, c.Rng.Float64()*30
 	c.Emit("c16.aabb.ray", c16box(b)+" "+c16v(ray.Origin())+" "+c16v(ray.Direction())+" "+Fs(mn, mx), B(b.IntersectsRayInRange(ray, mn, mx)))
+
+	// axis-parallel rays (two zero direction components, each +0 or -0): origin strictly inside the widened slabs,
+	// outside, and EXACTLY on the widened face boxMin-kEpsilon / boxMax+kEpsilon (0*Inf = NaN in Go)
+	const kEpsilon = 0.0000000001
+	zero := func() float64 {
+		if c.Rng.Intn(2) == 0 {
+			return math.Copysign(0, -1)
+		}
+		return 0
+	}
+	coord := func(lo, hi float64) float64 {
+		switch c.Rng.Intn(6) {
+		case 0:
+			return lo - kEpsilon
+		case 1:
+			return hi + kEpsilon
+		case 2:
+			return lo - 1 - c.Rng.Float64()
+		case 3:
+			return hi + 1 + c.Rng.Float64()
+		case 4:
+			return lo
+		default:
+			return lo + (hi-lo)*c.Rng.Float64()
+		}
+	}
+	bmin, bmax := b.Min(), b.Max()
+	sgn := float64(1 - 2*c.Rng.Intn(2))
+	var ao, ad v3
+	switch c.Rng.Intn(3) {
+	case 0:
+		ao = vector3.New(bmin.X()-5*sgn, coord(bmin.Y(), bmax.Y()), coord(bmin.Z(), bmax.Z()))
+		ad = vector3.New(sgn, zero(), zero())
+	case 1:
+		ao = vector3.New(coord(bmin.X(), bmax.X()), bmin.Y()-5*sgn, coord(bmin.Z(), bmax.Z()))
+		ad = vector3.New(zero(), sgn, zero())
+	default:
+		ao = vector3.New(coord(bmin.X(), bmax.X()), coord(bmin.Y(), bmax.Y()), bmin.Z()-5*sgn)
+		ad = vector3.New(zero(), zero(), sgn)
+	}
+	aray := geometry.NewRay(ao, ad)
+	c.Note("slab.axis-parallel")
+	c.Emit("c16.aabb.ray", c16box(b)+" "+c16v(aray.Origin())+" "+c16v(aray.Direction())+" "+Fs(0, 100), B(b.IntersectsRayInRange(aray, 0, 100)))
 }
 
 // BVHNode.Hit / rendering.Mesh.Hit / rendering.Tree.Hit (octree) vs HitList.Hit over the same triangles
